@@ -150,10 +150,10 @@ var ops = []*op{
 		}
 		return a.SetIndices(idx)
 	}),
-	u("SetMaterial", "Mesh.SetMaterial", false, func(a M) M { return a.SetMaterial(mat("matC")) }),
+	u("SetMaterial", "Mesh.SetMaterial", false, func(a M) M { return a.SetMaterial(mat("mat C")) }),
 	u("SetMaterials", "Mesh.SetMaterials", true, func(a M) M {
 		n := a.PrimitiveCount()
-		mc := mat("matD")
+		mc := mat("mat D")
 		return a.SetMaterials([]modeling.MeshMaterial{{PrimitiveCount: n / 2, Material: &mc}, {PrimitiveCount: n - n/2, Material: nil}})
 	}),
 	u("WeldByFloat3Attribute", "Mesh.WeldByFloat3Attribute", true, func(a M) M { return a.WeldByFloat3Attribute(P, 3) }),
@@ -253,7 +253,7 @@ func extending() []*op {
 // values that share package-level storage) ----
 
 func triA() M {
-	mA := mat("matA")
+	mA := mat("mat A")
 	return modeling.NewTriangleMesh([]int{0, 1, 2}).
 		SetFloat3Attribute(P, []vector3.Float64{v3(0, 0, 0), v3(1, 0, 0), v3(0, 1, 0)}).
 		SetFloat3Attribute(N, []vector3.Float64{v3(0, 0, 1), v3(0, 0, 1), v3(0, 0, 1)}).
@@ -264,7 +264,7 @@ func triA() M {
 }
 
 func triB() M {
-	mB := mat("matB")
+	mB := mat("mat B")
 	return modeling.NewTriangleMesh([]int{0, 1, 2, 2, 1, 3}).
 		SetFloat3Attribute(P, []vector3.Float64{v3(5, 0, 0), v3(6, 0, 0), v3(5, 1, 0), v3(6, 1, 1)}).
 		SetFloat3Attribute(N, []vector3.Float64{v3(0, 1, 0), v3(0, 1, 0), v3(1, 0, 0), v3(1, 0, 0)}).
